@@ -62,6 +62,7 @@ def opTags (w : World) : Op → List String
   | .living => ["enable_commands"]
   | .burn => ["eval_cost-used"]
   | .rp => ["replace_program"]
+  | .mv _ => ["move_object"]
 
 def runOpsT (w : World) (self : Nat) : List Op → World × List Ev × Status × List String
   | [] => (w, [], .ok, [])
@@ -106,7 +107,7 @@ def roundT (sc : Scripts) : Nat → World → World × List Ev × List String
                       if w.ec then "chb.call.eval_cost-was-full" else "chb.call.eval_cost-reset-after-use"]
           match runOpsT w1 hb.ob (sc hb.ob (w.nb hb.ob)) with
           | (w2, evs, .err, tg) =>
-            (errorHandler w2, .beat hb.ob :: ctxEv w1 hb.ob :: evs ++ [.tickAbort],
+            ({ errorEntry w2 with cg := none }, .beat hb.ob :: ctxEv w1 hb.ob :: evs ++ [.tickAbort],
              "chb.entry.due:call" :: ctg ++ tg ++ errTags w2 ++ ["chb.round-abandoned"])
           | (w2, evs, _, tg) =>
             let w2 := callAfter w2 hb.ob
@@ -158,7 +159,7 @@ def stepCmdT (sc : Scripts) (w : World) : Cmd → World × List Ev × List Strin
     else if w.dead.contains self then (w, [.topDead self], [])
     else
       match runOpsT w self [op] with
-      | (w', evs, .err, tg) => (errorHandler w', evs ++ [.topErr self], tg ++ errTags w')
+      | (w', evs, .err, tg) => (errorEntry w', evs ++ [.topErr self], tg ++ errTags w')
       | (w', evs, _, tg) => (w', evs, tg)
   | .tflags n => if w.crashed then (w, [], []) else ({ w with tflags := (n : Int) }, [.tflags (n : Int)], ["timer_flags-set"])
 
